@@ -190,6 +190,10 @@ func VF_C18_xadd() {
 	}
 	t, s, okID := idParse(got.b)
 	vfAssert(got.k == rBulk && okID, "xadd-reply-is-an-id")
+	if form == 0 && !vfIsSymbolic() {
+		// native replay: the automatic ID comes from the real clock, only its order can be checked
+		et, es = t, s
+	}
 	vfAssert(t == et && s == es, "xadd-reply-id-value")
 	if top != nil {
 		vfAssert(idLess(top.t, top.s, t, s), "xadd-id-greater-than-all-previous")
